@@ -28,7 +28,7 @@ ASSUMPTIONS = ['docstrings of sismic.model.Statechart are the specification of e
                'the code there; only the listed soundness rules are judged',
                'states added by the workload carry no dangling initial/memory of their own']
 OPS = ['add_state', 'remove_state', 'rename_state', 'move_state', 'add_transition', 'remove_transition', 'rotate_transition']
-REQUIRED_COUNTERS = ['ops_ok', 'ops_rejected', 'views_compared', 'atomicity_checks', 'rejected_partially_valid'] + \
+REQUIRED_COUNTERS = ['history_state_as_initial', 'removed_name_reused', 'ops_ok', 'ops_rejected', 'views_compared', 'atomicity_checks', 'rejected_partially_valid'] + \
     ['ok_' + o for o in OPS] + ['rejected_' + o for o in OPS]
 KIND = {BasicState: 'basic', CompoundState: 'compound', OrthogonalState: 'orthogonal', FinalState: 'final',
         ShallowHistoryState: 'shallow', DeepHistoryState: 'deep'}
@@ -43,10 +43,15 @@ def plan(tier):
 
 def view(sc):
     v = {}
-    for n in sc.states:
+    names = sc.states
+    for i, n in enumerate(names):
         s = sc.state_for(n)
+        other = names[(i + 1) % len(names)]
         v[n] = (KIND[type(s)], sc.parent_for(n), tuple(sorted(sc.children_for(n))), getattr(s, 'initial', None),
-                getattr(s, 'memory', None), s.name)
+                getattr(s, 'memory', None), s.name,
+                # derived queries (must agree with the parent/children relation, whatever was cached before the edit)
+                tuple(sc.ancestors_for(n)), sc.depth_for(n), tuple(sorted(sc.descendants_for(n))),
+                sc.least_common_ancestor(n, other))
     tr = Counter((t.source, t.target, t.event, t.internal, t.priority) for t in sc.transitions)
     return v, tr, sc.root
 
@@ -61,8 +66,25 @@ class Model:
         self.st = {}        # name -> dict(kind, parent, children=set, initial, memory)
         self.tr = []        # list of [source, target, event, priority]
 
+    def anc(self, n):
+        out = []
+        p = self.st[n]['parent']
+        while p is not None:
+            out.append(p)
+            p = self.st[p]['parent']
+        return out
+
     def view(self):
-        v = {n: (s['kind'], s['parent'], tuple(sorted(s['children'])), s['initial'], s['memory'], n) for n, s in self.st.items()}
+        names = sorted(self.st)
+        v = {}
+        for i, n in enumerate(names):
+            s = self.st[n]
+            other = names[(i + 1) % len(names)]
+            a = self.anc(n)
+            ao = self.anc(other)
+            lca = next((x for x in a if x in ao), None)
+            v[n] = (s['kind'], s['parent'], tuple(sorted(s['children'])), s['initial'], s['memory'], n,
+                    tuple(a), len(a) + 1, tuple(sorted(self.desc(n))), lca)
         tr = Counter((t[0], t[1], t[2], t[1] is None, t[3]) for t in self.tr)
         roots = [n for n, s in self.st.items() if s['parent'] is None]
         return v, tr, (roots[0] if roots else None)
@@ -201,7 +223,7 @@ def sound(sc):
     roots = [n for n, x in v.items() if x[1] is None]
     if v and (len(roots) != 1 or root != roots[0]):
         return 'roots %r (root property %r)' % (roots, root)
-    for n, (k, p, c, i, m, nm) in v.items():
+    for n, (k, p, c, i, m, nm, _a, _d, _ds, _l) in v.items():
         if nm != n:
             return 'state registered as %r calls itself %r' % (n, nm)
         if p is not None and (p not in v or n not in v[p][2]):
@@ -249,7 +271,13 @@ def run_case(acc, rnd, tier, case):
         sc, _ = build.build_api(ch)
         for n in ch['order']:
             s = ch['states'][n]
-            m.add_state(n, s['kind'], s['parent'], s['initial'], s['memory'])
+            ini = s['initial']
+            hk = [c for c in s['children'] if ch['states'][c]['kind'] in ('shallow', 'deep')]
+            if s['kind'] == 'compound' and hk and rnd.random() < 0.4:
+                ini = rnd.choice(hk)            # a history state may be the initial state of its parent (tests/yaml/history.yaml)
+                sc.state_for(n).initial = ini
+                acc.count('history_state_as_initial')
+            m.add_state(n, s['kind'], s['parent'], ini, s['memory'])
         for t in ch['transitions']:
             m.add_transition(t['source'], t['target'], t['event'], t['priority'])
     if view(sc) != m.view():
@@ -257,6 +285,7 @@ def run_case(acc, rnd, tier, case):
         return
     nops = rnd.randint(10, 40 if tier == 'quick' else 80)
     history = []
+    removed = []
     for k in range(nops):
         names = sc.states
 
@@ -273,6 +302,10 @@ def run_case(acc, rnd, tier, case):
                 nm = next(fresh) if rnd.random() < 0.8 else pick(0.0)
                 if nm == '':
                     nm = next(fresh)        # W1: names are non-empty
+                gone = [x for x in removed if x not in names and x]
+                if gone and rnd.random() < 0.3:
+                    nm = rnd.choice(gone)   # re-use the name of a state that was removed earlier
+                    acc.count('removed_name_reused')
                 par = (pick() if names else None) if rnd.random() < 0.95 else None
                 kind = rnd.choice(['basic', 'basic', 'compound', 'orthogonal', 'final', 'shallow', 'deep'])
                 kw = {}
@@ -388,6 +421,8 @@ def run_case(acc, rnd, tier, case):
         else:
             acc.count('ops_ok')
             acc.count('ok_' + op)
+            if op in ('remove_state', 'rename_state'):
+                removed.extend(x for x in before[0] if x not in after[0])
             mv = m.view()
             if after != mv:
                 acc.violation('C16:effect-differs-from-documentation', '%r: %s' % (call, diff(mv, after, 'documented', 'actual')),
@@ -407,7 +442,7 @@ def context_class(op, before, call):
     if op == 'add_state':
         a = call[3]
     if a in v:
-        k, p, c, i, m, _ = v[a]
+        k, p, c, i, m = v[a][:5]
         return (k, 'root' if p is None else 'child', 'has_children' if c else 'leaf',
                 'is_initial_or_memory' if any(x[3] == a or x[4] == a for x in v.values()) else '-')
     return ('unknown',)
